@@ -26,7 +26,7 @@ const RULE: &str = "case = one route table (scopes nested up to 3 levels, resour
 (static, {name}, {name:\\d+}, tail), App::route sugar, method/header/host/All/Any/Not guards on scopes, resources and \
 routes, per-node app_data markers, default services) and 1..24 requests (methods, Host / x-a headers, paths over an \
 alphabet with %2F %25 %2B %61, empty segments, trailing slashes, query strings); tables: every table of <= 2 top-level \
-nodes over a menu of 6 resource and 4 scope patterns with <= 2 children per scope, plus seeded random tables to depth 3 \
+nodes over a menu of 6 resource and 4 scope patterns with <= 2 children per scope; every table of <= 2 overlapping top-level nodes over 57 templates combining guards, data, defaults and route sets (x GET/POST x 5 paths); plus seeded random tables to depth 3 \
 with requests derived from a route of the table (and mutations of them) and random requests; a request is non-trivial \
 if some service of the table was committed to (a handler, a registered default, a 405, or a non-empty resource path); \
 distinct = distinct (case, output) hashes";
@@ -386,7 +386,8 @@ async fn run_impl(app: &AppT, reqs: &[ReqT]) -> Vec<String> {
             outs.push("bad-request".to_owned());
             continue;
         };
-        if r.target.parse::<actix_web::http::Uri>().is_err() {
+        // only origin-form targets (a path, optionally a query) are in the protocol
+        if !r.target.starts_with('/') || r.target.parse::<actix_web::http::Uri>().is_err() {
             outs.push("bad-request".to_owned());
             continue;
         }
@@ -700,6 +701,10 @@ fn run(line: &str) -> CaseResult {
     let mut tags: Vec<String> = Vec::new();
     let mut nontrivial = false;
     for (r, o) in reqs.iter().zip(&outs) {
+        if o == "bad-request" {
+            tags.push("bad-request".into());
+            continue;
+        }
         let want = reference::route(&app, r);
         let Some(got) = parse_out(o) else {
             fails.push(("unparsable-output".into(), format!("{} {} -> {o}", r.method, r.target)));
@@ -725,6 +730,7 @@ fn run(line: &str) -> CaseResult {
         // generator ground truth: the path was built from the route to handler `h` with these values;
         // it must be served by that handler with exactly these values, or by a service registered earlier
         if let Some((h, ps)) = r.exp.as_ref().filter(|(h, _)| guards_to(&app.children, *h).is_some_and(|gs| gs.iter().all(|g| reference::holds(g, r)))) {
+            tags.push("ground-truth-checked".into());
             if got.who == format!("h{h}") {
                 if got.params != *ps {
                     fails.push(("params-exact".into(), format!("{what}: built from values {:?}, handler saw {:?}", ps, got.params)));
@@ -841,6 +847,65 @@ fn exhaustive_small(cases: &mut Vec<String>) {
     for a in &nodes {
         for b in &nodes {
             cases.push(render(&[a, b]));
+        }
+    }
+}
+
+/// second exhaustive family: fixed patterns, every combination of guards / data / defaults /
+/// route sets on one or two overlapping top-level nodes (a prefix that is also a resource, an
+/// empty scope, a guard that rejects the first of two overlapping patterns, nested defaults)
+fn exhaustive_attrs(cases: &mut Vec<String>) {
+    let mut templates: Vec<String> = Vec::new();
+    let scope_attrs = ["", " g=M~GET", " df=#", " d=#", " g=M~GET df=#"];
+    let scope_kids = [
+        "",
+        " r:/x ( *># )",
+        " r:/x ( M~GET># )",
+        " s:/b { r:/x ( *># ) }",
+        " s:/b df=# { }",
+        " s:/b d=# { r:/x d=# ( M~POST># ) }",
+    ];
+    for a in scope_attrs {
+        for k in scope_kids {
+            templates.push(format!("s:/a{a} {{{k} }}"));
+        }
+    }
+    for pat in ["/a/x", "/a"] {
+        for a in ["", " g=M~POST", " df=#", " d=#"] {
+            for r in ["*>#", "M~GET># M~POST>#", ""] {
+                templates.push(format!("r:{pat}{a} ( {r} )"));
+            }
+        }
+    }
+    templates.push("t:/a/x M~GET>#".into());
+    templates.push("t:/a/b/x *>#".into());
+    let reqs: String = ["/a", "/a/x", "/a/b/x", "/a/b/y", "/a/y"]
+        .iter()
+        .flat_map(|p| [format!(" ;; GET {p}"), format!(" ;; POST {p}")])
+        .collect();
+    let mut emit = |head: &str, tops: &[&String]| {
+        let body = format!("{head} {{ {} }}", tops.iter().map(|t| t.as_str()).collect::<Vec<_>>().join(" "));
+        let mut n = 0;
+        let mut s = String::new();
+        for ch in body.chars() {
+            if ch == '#' {
+                n += 1;
+                s.push_str(&n.to_string());
+            } else {
+                s.push(ch);
+            }
+        }
+        s.push_str(&reqs);
+        cases.push(s.split_whitespace().collect::<Vec<_>>().join(" "));
+    };
+    for head in ["app", "app d=# df=#"] {
+        for a in &templates {
+            emit(head, &[a]);
+        }
+        for a in &templates {
+            for b in &templates {
+                emit(head, &[a, b]);
+            }
         }
     }
 }
@@ -1060,6 +1125,7 @@ fn gen(ctx: &Ctx) -> Vec<String> {
     let mut cases = Vec::new();
     if ctx.tier != Tier::Burst {
         exhaustive_small(&mut cases);
+        exhaustive_attrs(&mut cases);
     }
     let mut rng = Rng::new(ctx.seed);
     for _ in 0..ctx.budget(6000) {
